@@ -6,7 +6,7 @@
    --stash is (include, REGEXP refs/stash), as registered in
    ref_group_builder.go:162-253; the harness drives them as such. *)
 From Coq Require Import String.
-From GS Require Import GoSem Text RefOpts RefOptsProofs.
+From GS Require Import GoSem Text RefOpts RefOptsProofs Utf8Proofs OptionArg.
 From GSGen Require Import RefFilterGen.
 Open Scope N_scope.
 
@@ -40,6 +40,33 @@ Print Assumptions C06_regexp_full.
 Theorem C06_regexp_stays_inside : forall s e i j, (i <= length s)%nat -> In j (ends e s i) -> (i <= j <= length s)%nat.
 Proof. exact ends_bounded. Qed.
 Print Assumptions C06_regexp_stays_inside.
+
+(* how the argument of --include / --exclude is read (filter_value.go interpretFlexibly): /R/ is the regular expression R,
+   whatever R is — only the two delimiters are taken off —, @G the refgroup G, everything else a prefix taken as it is *)
+Theorem C06_argument_regexp : forall r, interpret_flexibly (47 :: r ++ [47]) = ARegexp r.
+Proof. exact interpret_regexp. Qed.
+Print Assumptions C06_argument_regexp.
+
+Theorem C06_argument_group : forall g, g <> [] -> interpret_flexibly (64 :: g) = AGroup g.
+Proof. exact interpret_group. Qed.
+Print Assumptions C06_argument_group.
+
+Theorem C06_argument_prefix : forall s, (forall g, s <> 64 :: g) -> (forall r, s <> 47 :: r ++ [47]) -> interpret_flexibly s = APrefix s.
+Proof. exact interpret_prefix. Qed.
+Print Assumptions C06_argument_prefix.
+
+(* the decoder the matcher reads names with is UTF-8: every scalar value's encoding decodes to it, and whatever is decoded in
+   more than one byte is the canonical encoding of a scalar value (no overlong form, no surrogate, nothing above U+10FFFF);
+   a width of one is an ASCII byte or U+FFFD standing for a byte that begins no valid sequence *)
+Theorem C06_utf8_decode_encode : forall c rest, scalar c -> rune_at (utf8_encode c ++ rest) 0 = Some (c, length (utf8_encode c)).
+Proof. exact rune_at_encode. Qed.
+Print Assumptions C06_utf8_decode_encode.
+
+Theorem C06_utf8_canonical : forall s i c w, rune_at s i = Some (c, w) ->
+  (w = 1%nat /\ (c < 128 \/ c = 65533)) \/
+  (128 <= c /\ scalar c /\ firstn w (skipn i s) = utf8_encode c /\ w = length (utf8_encode c)).
+Proof. exact rune_at_canonical_at. Qed.
+Print Assumptions C06_utf8_canonical.
 
 (* the defect that was repaired: "^" + p + "$" does not anchor a top-level alternation *)
 Theorem C06_regexp_old_refuted : exists e s, search (wrap_old e) s = true /\ full_match e s = false.
